@@ -174,6 +174,18 @@ class TU:
             live = [w for i, w in enumerate(live) if i not in bad]
         else:
             raise Broken("wrapper TU %s/%s: could not isolate failing wrappers" % (self.cfg.name, self.tag))
+        if not self.post and self.opt == ("-O2",):
+            # a wrapper that still calls a function defined in the module (an AVEL routine clang's cost model
+            # left out of line) would make the summary opaque: inline it (-O2 again with an unbounded
+            # inlining threshold; modules without such calls are left exactly as clang produced them)
+            txt = open(ll).read()
+            defined = set(re.findall(r'^define [^@\n]*@("[^"]+"|[\w.$]+)\(', txt, re.M))
+            called = set(re.findall(r'(?:call|invoke) [^@\n]*@("[^"]+"|[\w.$]+)\(', txt))
+            if defined & called:
+                ll2 = os.path.join(d, "w.inl.ll")
+                r = sh(["opt-14", "-S", "-O2", "-inline-threshold=1000000", ll, "-o", ll2])
+                if r.returncode == 0:
+                    ll = ll2
         if self.post:
             ll2 = os.path.join(d, "w.post.ll")
             r = sh(["opt-14", "-S", "-passes=" + self.post, ll, "-o", ll2])
